@@ -1215,11 +1215,55 @@ def run(chk):
 
     G, S, N = "console.format.green", "console.format.red", "console.format.neutral"
     cells = {}
+    # OTHER SETTINGS of the reporter that the cell / line construction reads (`self.report_format`, ...): attributes of the reporter besides the mode flag that _diff, _line or a
+    # helper method of them loads. The property speaks about every configuration, so the statements are evaluated with each of them at representative values: the constants
+    # the attribute (or the parameter of a function of the module it is handed to) is compared with anywhere in the reporter module, True / False, and - first, the value the
+    # tables below are evaluated with - a text no test knows.
+    settings = {}
+    for f_ in closure_of(diff) + [g_ for g_ in closure_of(line) if g_ not in diff_closure]:
+        rcv = params_of(f_)[:1]
+        for n in ast.walk(f_):
+            if isinstance(n, ast.Attribute) and isinstance(n.ctx, ast.Load) and isinstance(n.value, ast.Name) and [n.value.id] == rcv and n.attr != FLAG and n.attr not in cm and n.attr != "logger" and not in_log(n):
+                settings.setdefault(n.attr, ["\x00other"])
+
+    def _compared_constants(scope_node, is_subject):
+        out = []
+        for n in ast.walk(scope_node):
+            if isinstance(n, ast.Compare) and any(is_subject(x) for x in [n.left] + n.comparators):
+                for x in [n.left] + n.comparators:
+                    for y in (x.elts if isinstance(x, (ast.Tuple, ast.List, ast.Set)) else [x]):
+                        if isinstance(y, ast.Constant) and isinstance(y.value, (str, int, float)) and not isinstance(y.value, bool):
+                            out.append(y.value)
+        return out
+
+    for a_, dom in settings.items():
+        def is_attr(x, a_=a_):
+            return isinstance(x, ast.Attribute) and x.attr == a_ and isinstance(x.value, ast.Name) and x.value.id == "self"
+        found = _compared_constants(CR, is_attr)
+        for n in ast.walk(CR):
+            if isinstance(n, ast.Call) and any(is_attr(x) for x in list(n.args) + [k_.value for k_ in n.keywords]):
+                callee = mod_funcs.get(n.func.id) if isinstance(n.func, ast.Name) else (cm.get(n.func.attr) if isinstance(n.func, ast.Attribute) and isinstance(n.func.value, ast.Name) and n.func.value.id == "self" else None)
+                if callee is not None:
+                    try:
+                        bound_ = bind_args(n, callee)
+                    except Exception:  # noqa: BLE001 - a call this cannot be bound for contributes no value
+                        continue
+                    for p_, e_ in bound_.items():
+                        if e_ is not None and is_attr(e_):
+                            found += _compared_constants(callee, lambda x, p_=p_: isinstance(x, ast.Name) and x.id == p_)
+        for v_ in found + [True, False]:
+            if not any(v_ == w_ and type(v_) is type(w_) for w_ in dom):
+                dom.append(v_)
+    cfg_now = [{a_: dom[0] for a_, dom in settings.items()}]
+
+    def self_rec(plain):
+        """the reporter object the statements are evaluated with: the mode flag and the other settings at their current representative values"""
+        return minieval.Record(**dict(cfg_now[0], **{FLAG: plain}))
 
     def cell(plain, inc, pct, b, c, fmt=None):
         """the cell _diff produces for (self.plain, direction flag, as_percentage, baseline, contender[, formatter — default: _diff's own default]): its statements are
         evaluated on these values; the operands are bound by parameter POSITION (as _line passes them), the mode and formatter by parameter name."""
-        k_ = (plain, inc, pct, b, c, fmt)
+        k_ = (plain, inc, pct, b, c, fmt) + ((repr(sorted(cfg_now[0].items(), key=repr)),) if cfg_now[0] else ())
         if k_ not in cells:
             it = _Interp(cm, mod_funcs)
             kw = {pctp: pct}
@@ -1228,7 +1272,7 @@ def run(chk):
             elif dp.index(fmtp) < len(dp) - len(diff.args.defaults):
                 kw[fmtp] = lambda x: x  # _diff declares no default formatter: the identity is supplied by the rule
             try:
-                r = it.call(diff, [minieval.Record(**{FLAG: plain}), b, c, inc], kw, {})
+                r = it.call(diff, [self_rec(plain), b, c, inc], kw, {})
             except (Unsupported, UnknownAtom, minieval.CannotEval) as e:
                 if "ZeroDivisionError" not in str(e):
                     raise _CaseFailed(f"_diff(plain={plain}, {b}, {c}, {inc}, as_percentage={pct}): {type(e).__name__}: {e}")
@@ -1384,6 +1428,29 @@ def run(chk):
             chk.ob("O20.3", f"mirrored: d = t and d = -t (print as +-{t:.{dec[pct]}f}) are both signed and coloured ({mode})", not m_, fnode, m_, key=f"{_R}:_diff:mirror:{mode}")
     except _CaseFailed as e:
         chk.unknown("O20.3", f"_diff cannot be evaluated on values: {e}", fnode)
+        dec = None
+    # every OTHER setting the cell construction reads: under each of its representative values (one setting varied at a time) the cells are still signed and coloured by the
+    # printed value, and the plain cell is still the text of the rich cell - the file output is the console output without colour codes in EVERY configuration (a "+" dropped,
+    # another precision or a colour kept for one report format on one of the two paths makes the two outputs differ)
+    deferred_o4 = [("settings of the reporter the difference cells depend on besides the mode flag", True, diff, ", ".join(f"{a_} in {dom!r}" for a_, dom in settings.items()) or "none", None)]
+    for a_, dom in settings.items() if dec else ():
+        site_ = next((n for f_ in closure_of(diff) + closure_of(line) for n in ast.walk(f_) if isinstance(n, ast.Attribute) and n.attr == a_ and isinstance(n.value, ast.Name) and [n.value.id] == params_of(f_)[:1]), diff)
+        for v_ in dom[1:]:
+            keep_cfg, keep_pm = cfg_now[0], list(plain_mismatch)
+            cfg_now[0] = dict(keep_cfg, **{a_: v_})
+            del plain_mismatch[:]
+            try:
+                bad = [m_ for pct in (False, True) for b_, c_ in ((10, 12), (12, 10), (5, 5), (-4, -5), (2.5, 1.0)) for m_ in [judge(pct, b_, c_, rel(b_, c_) if pct else c_ - b_, dec[pct])] if m_]
+                pm_ = list(plain_mismatch)
+                chk.ob("O20.3", f"with self.{a_} = {v_!r}: every difference cell shows the difference, signed ('+' on positive values) and coloured by direction iff it prints as non-zero", not bad, site_,
+                       "; ".join(bad)[:400], key=f"{_R}:ComparisonReporter._diff:setting:{a_}:{v_!r}:cells")
+                deferred_o4.append((f"with self.{a_} = {v_!r}: the plain cell (report file) is the text of the rich cell (console) without a colour function", not pm_, site_,
+                                    "; ".join(pm_[:3])[:400] if pm_ else "", f"{_R}:ComparisonReporter._diff:setting:{a_}:{v_!r}:plain-equals-rich"))
+            except _CaseFailed as e:
+                chk.unknown("O20.3", f"_diff cannot be evaluated on values with self.{a_} = {v_!r}: {e}", site_)
+            finally:
+                cfg_now[0] = keep_cfg
+                plain_mismatch[:] = keep_pm
     # the function in the colour role of PLAIN mode returns its argument. By role, not by name: in every evaluated plain cell, the callable of the analysed code (nested helper,
     # lambda, method, static method, module-level function) that was applied LAST and whose value is the cell; decided on the (argument, result) pairs of those applications
     plain_cells = [c_ for k_, c_ in cells.items() if k_[0] is True and not c_.crash]
@@ -1439,7 +1506,7 @@ def run(chk):
             it = _Interp(cm, mod_funcs)
             kw = {P_FMT: fmt} if fmt is not None else ({} if P_FMT in line_defaults else {P_FMT: (lambda x: x)})
             try:
-                r = it.call(line, [minieval.Record(**{FLAG: plain}), "<metric>", b_, c_, "<task>", "<unit>", inc], kw, {})
+                r = it.call(line, [self_rec(plain), "<metric>", b_, c_, "<task>", "<unit>", inc], kw, {})
             except (Unsupported, UnknownAtom, minieval.CannotEval, TypeError, ValueError, AttributeError, KeyError, IndexError, ArithmeticError, RecursionError) as e:
                 raise _CaseFailed(f"_line({b_}, {c_}, flag={inc}, plain={plain}): {type(e).__name__}: {e}")
             n_rows += 1
@@ -1505,6 +1572,8 @@ def run(chk):
     if n_cases[0]:
         chk.ob("O20.4", "in plain mode every evaluated difference cell is the text of the rich cell without a colour function", not plain_mismatch, sel_node,
                f"{n_cases[0]} case(s)" if not plain_mismatch else "; ".join(plain_mismatch[:3])[:400], key=f"{_R}:ComparisonReporter._diff:plain-equals-rich-text")
+    for inst_, ok_, node_, detail_, key_ in deferred_o4:
+        chk.ob("O20.4", inst_, ok_, node_, detail_, key=key_)
     # every colour function assigned in the plain arm is identity — covered by the table; additionally no colour call outside _diff
     cols = [n for n in ast.walk(CR) if isinstance(n, ast.Attribute) and u(n).startswith("console.format.") and source.enclosing_func(n) is not None]
     off = confined(cols, "a colour function is selected")
@@ -1701,7 +1770,7 @@ def run(chk):
         it = _Interp(cm, mod_funcs)
         kw = {} if P_FMT in line_defaults else {P_FMT: (lambda x: x)}
         try:
-            r = it.call(line, [minieval.Record(**{FLAG: False}), "<metric>", bv, cv, "<task>", "<unit>", False], kw, {})
+            r = it.call(line, [self_rec(False), "<metric>", bv, cv, "<task>", "<unit>", False], kw, {})
         except minieval.CannotEval as e:
             if (bv is None or cv is None) and ("non-numeric" in str(e) or "NoneType" in str(e)):
                 return True
@@ -2400,6 +2469,111 @@ def run(chk):
                 else:
                     chk.ob("O20.2", inst, got == k_in, x, f"`{u(x)}`" + ("" if got == k_in else f": looked up by `[{got}]` in an index built on `[{k_in}]`"), key=f"{_R}:ComparisonReporter.{name}:pairing:{u(outer_iter)}")
     located(n_pair >= 5, "O20.2", "id-paired statistics located", rep, f"{n_pair} pairing test(s)")
+    # KEYED series (the percentiles of a task): a loop of the reporter over a series computed by a function of the metrics module builds one line per element, both operands read
+    # from the two races' records under a key COMPUTED from the element. Each line must compare the stored values of ITS element: decided on values - the series and the key
+    # expressions are evaluated (functions of the metrics module interpreted): the keys of distinct elements are pairwise distinct (two elements that share a key show the same
+    # stored values; one of the two lines is not about its element, the values stored for it are never shown), the two races are read under the same key, and the key is the one
+    # the results writer computes for the element (the key expression of every `<record>[<key function>(k)] = v` store in the metrics module that uses the same key function).
+    import sys as _sys
+
+    met_funcs = {n.name: n for n in met_.tree.body if isinstance(n, ast.FunctionDef)}
+    met_alias = {(a_.asname or a_.name) for n in rp.tree.body if isinstance(n, ast.ImportFrom) and n.module == "esrally" for a_ in n.names if a_.name == "metrics"}
+
+    def met_ev(e, env):
+        """e evaluated with the functions of the metrics module it calls (`metrics.f(...)`, or `f(...)` inside that module) interpreted"""
+        class R_(ast.NodeTransformer):
+            def visit_Attribute(self, n):
+                if isinstance(n.value, ast.Name) and n.value.id in met_alias and n.attr in met_funcs:
+                    return ast.Name(id=n.attr, ctx=ast.Load())
+                return self.generic_visit(n)
+
+        e2 = ast.fix_missing_locations(R_().visit(ast.parse(u(e), mode="eval").body))
+        return _Interp({}, met_funcs).ev(e2, dict(env, sys=minieval.Record(maxsize=_sys.maxsize)))
+
+    def met_calls(e):
+        return {x.func.attr if isinstance(x.func, ast.Attribute) else x.func.id for x in ast.walk(e) if isinstance(x, ast.Call) and
+                ((isinstance(x.func, ast.Attribute) and isinstance(x.func.value, ast.Name) and x.func.value.id in met_alias and x.func.attr in met_funcs) or (isinstance(x.func, ast.Name) and x.func.id in met_funcs))}
+
+    n_series = 0
+    EVAL_ERR = (Unsupported, UnknownAtom, minieval.CannotEval, TypeError, ValueError, AttributeError, KeyError, IndexError, ArithmeticError, RecursionError)
+    for name, f in cm.items():
+        fdefs_s = local_defs(f)
+        for it_n, it_tg, it_iter, it_scope in iterations(f):
+            # the series by value: through a module-level name of the reporter module (a table computed once at import time)
+            if isinstance(it_iter, ast.Name) and it_iter.id not in fdefs_s and it_iter.id not in params_of(f):
+                mdef = [n.value for n in rp.tree.body if isinstance(n, ast.Assign) and len(n.targets) == 1 and isinstance(n.targets[0], ast.Name) and n.targets[0].id == it_iter.id]
+                it_iter = mdef[0] if len(mdef) == 1 else it_iter
+            tg_names = {y.id for y in ast.walk(it_tg) if isinstance(y, ast.Name)}
+            if not tg_names or not met_calls(it_iter):
+                continue
+            in_scope = {id(x) for s_ in it_scope for x in ast.walk(s_)}
+            reads = {}  # role -> [key expression]
+            for f2, c in sites:
+                if f2 is not f or id(c) not in in_scope:
+                    continue
+                b = bind_args(c, line)
+                for role_, prm in (("B", P_BASE), ("C", P_CONT)):
+                    e_ = b.get(prm)
+                    e_ = source.inline_node(e_, {k_: v_ for k_, v_ in fdefs_s.items() if k_ not in tg_names and k_ not in params_of(f)}) if e_ is not None else None
+                    for x in ast.walk(e_) if e_ is not None else ():
+                        k_e = x.slice if isinstance(x, ast.Subscript) and not isinstance(x.slice, ast.Slice) else (
+                            x.args[0] if isinstance(x, ast.Call) and isinstance(x.func, ast.Attribute) and x.func.attr == "get" and x.args else None)
+                        if k_e is not None and any(isinstance(y, ast.Name) and y.id in tg_names for y in ast.walk(k_e)) and (met_calls(k_e) or isinstance(it_tg, (ast.Tuple, ast.List))):
+                            reads.setdefault(role_, []).append(k_e)
+            if set(reads) != {"B", "C"}:
+                continue
+            n_series += 1
+            inst = f"{name}: the lines of the series `{short(it_iter, 60)}`"
+            try:
+                series = met_ev(it_iter, {})
+                if not isinstance(series, (list, tuple)) or not series:
+                    raise minieval.CannotEval(f"series {series!r}")
+                series = [tuple(p_) if isinstance(p_, list) else p_ for p_ in series]
+
+                def env_of(p_):
+                    env_ = {}
+                    _Interp()._bind(it_tg, p_, env_)
+                    return env_
+
+                keys = {r_: [[met_ev(k_e, env_of(p_)) for p_ in series] for k_e in ks] for r_, ks in reads.items()}
+            except EVAL_ERR as e:
+                chk.unknown("O20.2", f"{inst}: the series / the keys the operands are read under cannot be evaluated: {type(e).__name__}: {e}", it_n)
+                continue
+            kb = keys["B"][0]
+            dup = sorted({f"{series[i_]!r} and {series[j_]!r} -> {kb[i_]!r}" for i_ in range(len(series)) for j_ in range(i_ + 1, len(series)) if kb[i_] == kb[j_] and series[i_] != series[j_]})
+            chk.ob("O20.2", f"{inst}: distinct elements are read under distinct keys (each line shows the values stored for ITS element)", not dup, it_n,
+                   "; ".join(dup)[:300] + ": both lines show the same stored values, the values stored for one of the elements are never compared" if dup else f"{list(series)!r} -> {kb!r}",
+                   key=f"{_R}:ComparisonReporter.{name}:series-keys-distinct")
+            diff_ = [f"{series[i_]!r}: {sorted({repr(ks_[i_]) for ks_ in keys['B'] + keys['C']})}" for i_ in range(len(series)) if len({ks_[i_] for ks_ in keys["B"] + keys["C"]}) > 1]
+            chk.ob("O20.2", f"{inst}: baseline and contender are read under the same key for every element", not diff_, it_n, "; ".join(diff_)[:300], key=f"{_R}:ComparisonReporter.{name}:series-keys-same")
+            # the writer: stores `<record>[<key>] = v` in the metrics module whose key calls the same function(s) of the metrics module, the key a function of ONE local name
+            # (also a (key, value) pair / a key of a comprehension the record is built from); the element of a tuple-valued series stands for its first number
+            kfs = met_calls(reads["B"][0]) or met_calls(it_iter)
+            scal = [p_ if not isinstance(p_, tuple) else next((y for y in p_ if isinstance(y, (int, float)) and not isinstance(y, bool)), None) for p_ in series]
+            n_w = 0
+            for w in ast.walk(met_.tree) if None not in scal else ():
+                k_w = None
+                if isinstance(w, ast.Assign) and len(w.targets) == 1 and isinstance(w.targets[0], ast.Subscript) and not isinstance(w.targets[0].slice, ast.Slice):
+                    k_w = w.targets[0].slice
+                elif isinstance(w, ast.DictComp):
+                    k_w = w.key
+                elif isinstance(w, (ast.GeneratorExp, ast.ListComp)) and isinstance(w.elt, ast.Tuple) and len(w.elt.elts) == 2:
+                    k_w = w.elt.elts[0]
+                if k_w is not None and met_calls(k_w) and met_calls(k_w) <= kfs:
+                    free = sorted({y.id for y in ast.walk(k_w) if isinstance(y, ast.Name)} - set(met_funcs))
+                    if len(free) != 1:
+                        continue
+                    try:
+                        wk = [met_ev(k_w, {free[0]: p_}) for p_ in scal]
+                    except EVAL_ERR:
+                        continue
+                    n_w += 1
+                    bad_w = [f"{series[i_]!r}: stored under {wk[i_]!r}, read under {kb[i_]!r}" for i_ in range(len(series)) if wk[i_] != kb[i_]]
+                    chk.ob("O20.2", f"{inst}: every element is read under the key the results writer stores it under (`{short(w, 50)}`)", not bad_w, w, "; ".join(bad_w)[:300],
+                           key=f"{_R}:ComparisonReporter.{name}:series-keys-writer:{source.qualname(w)}")
+            if not n_w and None not in scal:
+                chk.unknown("O20.2", f"{inst}: the store of the results writer that computes its key with {sorted(kfs)} was not located", it_n)
+    located(n_series >= 1, "O20.2", "keyed series (percentiles) located", rep, f"{n_series} loop(s)")
     # every element (id) BOTH lists contain gets its lines - wherever it is stored in the two lists -, paired with ITSELF, and every such element the same number of lines.
     # Decided on VALUES: each method that pairs two list-valued statistics is evaluated (its helpers interpreted with it; the line constructor replaced by a recorder of its
     # operands: when _line emits is the 4-row table above) on two races whose lists hold three common entities in DIFFERENT ORDER (the match is the contender's 3rd, 4th and 1st
@@ -2461,7 +2635,7 @@ def run(chk):
                     vals.append(lists[side[p_]])
             it = _Interp(dict(cm, **{line.name: stub_line}), mod_funcs)
             try:
-                r = it.call(f, ([] if _is_static(f) else [minieval.Record(**{FLAG: False})]) + vals, {}, {})
+                r = it.call(f, ([] if _is_static(f) else [self_rec(False)]) + vals, {}, {})
             except (Unsupported, UnknownAtom, minieval.CannotEval, TypeError, ValueError, AttributeError, KeyError, IndexError, ArithmeticError, RecursionError) as e:
                 why_not = f"{type(e).__name__}: {e}"
                 break
@@ -3336,4 +3510,30 @@ VARIANTS += [
     [V("h5 ML jobs grouped in a defaultdict(list) under another member", "break", _R, _ML_RE,
        _ml_grouped(init="collections.defaultdict(list)", fill='            contenders_by_job[contender["unit"]].append(contender)\n', lookup="contenders_by_job[job_name]", table=_ML_TABLE_LIT), "O20.2", regex=True),
      V("", "break", _R, "import csv\n", "import collections\nimport csv\n")],
+]
+
+# ---- seeding round 6 (m17, m18): keyed series read under distinct keys / the writer's keys; the cells evaluated under every other setting of the reporter _diff reads ----
+_M = "esrally/metrics.py"
+_POS_OLD = '        if printed > 0:\n            return color_greater(f"+{formatted}")\n        elif printed < 0:\n            return color_smaller(formatted)\n'
+_POS_TAIL = '            return color_greater(f"{sign}{formatted}")\n        elif printed < 0:\n            return color_smaller(formatted)\n'
+_ENC_OLD = '    return str(float(k)).replace(".", "_")\n'
+_PCT_READS = ("            baseline_value = baseline_values.get(metrics.encode_float_key(percentile))\n"
+              "            contender_value = contender_values.get(metrics.encode_float_key(percentile))\n")
+
+VARIANTS += [
+    V("seed m18: the '+' of positive differences is dropped for csv on the plain path", "break", _R, _POS_OLD,
+      '        if printed > 0:\n            sign = "" if self.plain and self.report_format == "csv" else "+"\n' + _POS_TAIL, "O20.4"),
+    V("s6 the plain csv cell is printed with fewer decimals than the console cell", "break", _R, "            precision = 5\n",
+      '            precision = 3 if self.plain and self.report_format == "csv" else 5\n', "O20.4"),
+    V("s6 markdown reports print positive differences without '+' (both paths)", "break", _R, _POS_OLD,
+      '        if printed > 0:\n            sign = "" if self.report_format == "markdown" else "+"\n' + _POS_TAIL, "O20.3"),
+    V("s6 _diff reads the report format without changing a cell", "keep", _R, _POS_OLD,
+      '        if printed > 0:\n            sign = "+" if self.report_format != "csv" else "+"\n' + _POS_TAIL),
+    V("seed m17: percentile keys encoded with one decimal (99.99 -> '100_0')", "break", _M, _ENC_OLD, '    return f"{float(k):.1f}".replace(".", "_")\n', "O20.2"),
+    V("s6 percentile keys rounded to one decimal", "break", _M, _ENC_OLD, '    return str(round(float(k), 1)).replace(".", "_")\n', "O20.2"),
+    V("s6 the contender's percentile is read under the key of the truncated percentile", "break", _R,
+      "            contender_value = contender_values.get(metrics.encode_float_key(percentile))\n", "            contender_value = contender_values.get(metrics.encode_float_key(int(percentile)))\n", "O20.2"),
+    V("s6 percentile key encoding respelled with an f-string", "keep", _M, _ENC_OLD, '    return f"{float(k)}".replace(".", "_")\n'),
+    V("s6 the percentile key hoisted into a local of the loop", "keep", _R, _PCT_READS,
+      "            key = metrics.encode_float_key(percentile)\n            baseline_value = baseline_values.get(key)\n            contender_value = contender_values.get(key)\n"),
 ]
